@@ -54,12 +54,67 @@ Proof.
   unfold new_only in H1. apply andb_prop in H1. now rewrite (proj1 H1).
 Qed.
 
+(* ------------------------------------------------------------------ operations on one alternative *)
+Lemma rel_in_range_split (f : lfield) i j : rel_in_range f i j = true ->
+  exists fa ra r0 rb fb, f = fa ++ (ra ++ r0 :: rb) :: fb /\ length fa = i /\ length ra = j.
+Proof.
+  unfold rel_in_range. destruct (nth_error f i) as [e|] eqn:E; [|discriminate]. intros H.
+  apply Nat.ltb_lt in H. destruct (nth_error_split_eq _ _ _ E) as [Ef Li].
+  destruct (list_split_at e j H) as (ra & r0 & rb & -> & Lj).
+  exists (firstn i f), ra, r0, rb, (skipn (S i) f). now split.
+Qed.
+
+Lemma plain_field_split fa e fb : plain_field (fa ++ e :: fb) = true ->
+  plain_field fa = true /\ plain_entry e = true /\ plain_field fb = true.
+Proof.
+  unfold plain_field. rewrite forallb_app. cbn [forallb]. intros H.
+  apply andb_prop in H. destruct H as [H1 H2]. apply andb_prop in H2. tauto.
+Qed.
+Lemma plain_entry_split ra r rb : plain_entry (ra ++ r :: rb) = true ->
+  plain_entry ra = true /\ plain r = true /\ plain_entry rb = true.
+Proof.
+  unfold plain_entry. rewrite forallb_app. cbn [forallb]. intros H.
+  apply andb_prop in H. destruct H as [H1 H2]. apply andb_prop in H2. tauto.
+Qed.
+Lemma plain_field_join fa e fb : plain_field fa = true -> plain_entry e = true -> plain_field fb = true ->
+  plain_field (fa ++ e :: fb) = true.
+Proof. unfold plain_field. intros H1 H2 H3. rewrite forallb_app. cbn [forallb]. now rewrite H1, H2, H3. Qed.
+Lemma plain_entry_join ra r rb : plain_entry ra = true -> plain r = true -> plain_entry rb = true ->
+  plain_entry (ra ++ r :: rb) = true.
+Proof. unfold plain_entry. intros H1 H2 H3. rewrite forallb_app. cbn [forallb]. now rewrite H1, H2, H3. Qed.
+
+Lemma rel_op_step (m : nat -> M unit) X (g : relrec -> relrec) f i j st :
+  run_op fixed X = through 2 (m 2) ->
+  (forall r0, plain r0 = true -> node_op m (crel_tree r0) (crel_tree (g r0))) ->
+  (forall r0, plain r0 = true -> plain (g r0) = true) ->
+  plain_field f = true -> rel_in_range f i j = true -> holds st (cfield_tree f) ->
+  exists st', run_ops fixed [OGetEntry 0 i; OGetRel 0 0 j; X] st = Ok st' /\
+              holds st' (cfield_tree (l_on_relation i j g f)) /\
+              plain_field (l_on_relation i j g f) = true.
+Proof.
+  intros HX Hop Hg Hp Hr (ts & tid & ri & a & b & c & d & -> & HT).
+  destruct (rel_in_range_split f i j Hr) as (fa & ra & r0 & rb & fb & -> & <- & <-).
+  destruct (plain_field_split _ _ _ Hp) as (Pa & Pe & Pb).
+  destruct (plain_entry_split _ _ _ Pe) as (Pra & Pr0 & Prb).
+  destruct (rel_node_op_runs m (g r0) fa ra r0 rb fb ts tid ri c d (Hop r0 Pr0) HT)
+    as (ts' & a' & c' & d' & R3 & T3).
+  rewrite l_on_relation_split.
+  eexists. split; [|split].
+  - eapply run_ops_cons; [apply (get_entry_runs fa (ra ++ r0 :: rb) fb ts tid ri a b c d HT)|].
+    eapply run_ops_cons; [apply (get_rel_runs fa ra r0 rb fb ts tid ri b c d HT)|].
+    eapply run_ops_cons; [|reflexivity]. rewrite HX.
+    eapply through_runs; [exact R3|exact T3|]. cbn [s_tree h_path]. apply get_path_cfield_rel.
+  - do 7 eexists. split; [reflexivity|exact T3].
+  - apply plain_field_join; auto. apply plain_entry_join; auto.
+Qed.
+
 (* ------------------------------------------------------------------ one operation *)
 (* the operations covered so far, with operands the constructors build *)
 Definition covered (o : aop) : bool :=
   match o with
   | APush e | AInsert _ e | AReplace _ e => forallb new_only e
   | ARemoveEntry _ => true
+  | ASetArchqual _ _ _ => true
   | _ => false
   end.
 
@@ -69,6 +124,7 @@ Proof.
   rewrite count_entries_join by apply Forall_entryish_map. apply map_length.
 Qed.
 
+#[local] Hint Resolve set_archqual_node_op : core.
 Lemma op_step f o st : plain_field f = true -> covered o = true -> aop_in_range f o = true ->
   holds st (cfield_tree f) ->
   exists st', run_ops fixed (compile o) st = Ok st' /\ holds st' (cfield_tree (astep f o)) /\
@@ -110,6 +166,11 @@ Proof.
     + cbn [compile]. eapply run_ops_cons; [exact R2|reflexivity].
     + do 7 eexists. split; [reflexivity|]. exact T2.
     + cbn [astep]. now apply forallb_l_remove.
+  - (* set_archqual *)
+    cbn [aop_in_range] in Hr. cbn [compile astep].
+    apply (rel_op_step (fun r => relation_set_archqual r q) (OSetArchqual 0 q) (rr_set_qual q) f i j _ eq_refl); auto.
+    all: try (now exists ts, tid, ri, a, b, c, d).
+    all: try (intros r0 H0; destruct (plain_inv _ H0) as (n & q0 & v & ->); reflexivity).
 Qed.
 
 (* ------------------------------------------------------------------ histories *)
